@@ -61,7 +61,8 @@ class World:
         k = self.sk + self.rng.choice([0, 0, 0, 1, -1])
         nm = inst(self.last[0], self.last[1], max(1, k))
         rt = self.rng.choice([33, 33, 33, 16, 12])
-        self.lines.append("DELIVER 4:3232235777|5353|0|1|0||" + srv_rec(nm, rtype=rt, ttl=self.rng.choice([120, 120, 120, 0, 4500])))
+        echo = "%s,255,0" % hexs(nm) if self.rng.random() < 0.2 else ""       # a response may echo the question it answers
+        self.lines.append("DELIVER 4:3232235777|5353|0|1|0|%s|%s" % (echo, srv_rec(nm, rtype=rt, ttl=self.rng.choice([120, 120, 120, 0, 4500]))))
         if k == self.sk and rt == 33:
             self.sk += 1
             self.marks.append(self.now + 2000)
